@@ -139,11 +139,11 @@ impl TcpConnector for TcpForwarder {
         };
 
         log_id!(trace, id, "Connecting to peer: {}", peer);
+        let metrics_guard = self.context.metrics.clone().outbound_tcp_socket_counter();
         #[cfg(feature = "verif")]
         if let Some(r) = crate::verif::net::intercept_connect(&self.context, peer) {
             return r;
         }
-        let metrics_guard = self.context.metrics.clone().outbound_tcp_socket_counter();
         TcpStream::connect(peer)
             .await
             .and_then(|s| {
